@@ -163,27 +163,33 @@ def gen_history(rng, n, length, p_false):
 
 
 def real_paths(rng):
-    """accesses through iteration, slices, keys, copies and thread prefetch while memory permits"""
+    """accesses through iteration, slices, keys, copies and thread prefetch while memory permits; the examples
+    are ints or mutable records, and a consumer may modify every value it was handed (also the one handed
+    out by the access that computed it): the cached example stays frozen"""
     common.gc_point()
     fails = []
     state = {'mem': True, 'asked': 0}
     install_psutil(state)
     n = rng.randint(1, 7)
     counts = [0] * n
+    mutable = rng.random() < 0.5
+
+    def mk(x, c=0):
+        return {'v': x * 1000 + c, 'h': [x], 'd': {'x': (x,)}} if mutable else x * 1000 + c
 
     def up(x):
         c = counts[x]
         counts[x] += 1
-        return x * 1000 + c
+        return mk(x, c)
     with warnings.catch_warnings():
         warnings.simplefilter('ignore')
         ds = lazy_dataset.new({f'k{j}': j for j in range(n)}).map(up).cache()
         got = []
-        full = [j * 1000 for j in range(n)]
         steps = []
         for _ in range(rng.randint(2, 7)):
             how = rng.choice(['iter', 'slice', 'rslice', 'key', 'neg', 'copy', 'prefetch1', 'prefetch2', 'items', 'int'])
             steps.append(how)
+            full = [mk(j) for j in range(n)]
             want = full
             if how == 'iter':
                 out = list(ds)
@@ -212,8 +218,14 @@ def real_paths(rng):
                 if [k for k, _ in ds.items()] != [f'k{j}' for j in range(n)]:
                     fails.append(('items_keys_order', {'steps': steps}))
             if out != want:
-                fails.append(('access_path_not_transparent', {'path': how, 'steps': steps[:], 'got': out, 'want': want}))
-            got += out
+                fails.append(('access_path_not_transparent', {'path': how, 'steps': steps[:], 'mutable_examples': mutable, 'got': repr(out), 'want': repr(want)}))
+            got += [(o['v'] if mutable else o) for o in out if (isinstance(o, dict) and isinstance(o.get('v'), int)) or isinstance(o, int)]
+            if mutable:
+                for o in out:               # the consumer modifies what it was handed
+                    if isinstance(o, dict):
+                        o['v'] = -7
+                        o.setdefault('h', []).append('modified by the consumer')
+                        o['d'] = None
     if any(v % 1000 != 0 for v in got):
         fails.append(('not_first_value', {'values': got}))
     if any(c > 1 for c in counts):
